@@ -2964,7 +2964,7 @@ register(Unit("C19", "gen_text", run_text, drivers=["drv_gen"], lean_modules=[P1
               assumptions=[PERSIST_NOTE, "file2lines tokenisation and the file system are glue; the reader returns float32 op indices (generator: int64) — "
                            "compared by value and by identical masks/rewards along a fixed action list",
                            "FJSPFileGenerator/JSSPFileGenerator list files with unsorted os.listdir: instances compared as a multiset (order differences counted)"]))
-register(Unit("C19", "gen_npz", guard_tables(run_npz, "gen_npz"), drivers=["drv_gen"], lean_modules=[P19, P18 + "Tables"],
+register(Unit("C19", "gen_npz", guard_tables(run_npz, "gen_npz"), drivers=["drv_gen"], lean_modules=[P19, "Rl4co.Props.C19.NpzPre", P18 + "Tables"],
               theorems=[
                   T("Rl4co.Gen.Persist.load_data_demand", "proved", "CVRPEnv.load_data: demand' = demand / capacity"),
                   T("Rl4co.Gen.Persist.load_data_demand_le_one", "proved", "raw demands 1..9 over a capacity ≥ 9 land in (0, 1]"),
@@ -2972,6 +2972,9 @@ register(Unit("C19", "gen_npz", guard_tables(run_npz, "gen_npz"), drivers=["drv_
                   T("Rl4co.Gen.Persist.load_after_generator_counterexample", "proved", "¬(generator batch → save → env loader is the identity): the loader divides again (known finding)"),
                   T("Rl4co.Gen.Persist.load_after_generator_partial", "partial", "identity when the capacity is 1"),
                   T("Rl4co.Gen.Persist.load_data_per_row", "proved", "a dataset file with one capacity per row: every row is divided by its own capacity (extracted divisor form)"),
+                  T("Rl4co.Gen.Persist.npz_load_saveWith_iff", "proved", "class of changes around the container: with ANY per-array pre-processing between v.numpy() and np.savez*, save → load gives the TensorDict back IFF the step leaves every stored array (dtype tag, shape, contents) unchanged — for every TensorDict"),
+                  T("Rl4co.Gen.Persist.npz_downcast_counterexample", "proved", "NOT the round trip with a float64→float32 down-cast before saving (seed Y04-1), on a concrete float64 instance"),
+                  T("Rl4co.Gen.Persist.npz_downcast_invisible", "proved", "the same down-cast is invisible on every TensorDict without a float64 entry (why only the dtype sweep of the correspondence exposes it)"),
                   T("Rl4co.Gen.Persist.npz_load_save", "proved", "container model: load_npz_to_tensordict (save_tensordict_to_npz td) = td (keys in order, dtype/shape tags, contents, batch size), "
                                                                    "given the stated numpy Codec"),
                   T("Rl4co.Gen.Persist.npzBatch_of_uniform", "proved", "the batch size re-derived from the first key equals the common leading dimension"),
